@@ -316,6 +316,21 @@ def tw_loose_freeform(which: int, v: int, s: str, n: int) -> bool:
     return False
 
 
+def kf_loose_any_value(which: int, v: int, s: str) -> bool:
+    """
+    pre: 0 <= which <= 3 and len(s) <= 1
+    post: _
+    """
+    # a schema that says nothing (`{}` or only a description) admits ANY JSON value, not only objects
+    val = [v, s, [v], True][which]
+    doc = {"id": 1, "payload": val}
+    return _norm(U(S(copy.deepcopy(doc), Loose))) == _norm(doc)
+
+
+# kf_* conditions probe listed known findings (see /verif/known_findings.json): label of the finding each one witnesses
+KNOWN = {"kf_loose_any_value": lambda which, v, s: "any-schema-admits-only-objects"}
+
+
 def ob_employee_allof(i: int, has_kind: bool, k: str, boss: str, has_office: bool, street: str) -> bool:
     """
     pre: len(k) <= 1 and len(boss) <= 2 and len(street) <= 1
